@@ -17,6 +17,9 @@ import (
 //   ; S epoch block id w ...               sealing rule
 //   ; E i epoch creator seq lamport frame p1 p2 ...   event definition (parents = event numbers, self-parent first)
 //   ; P i | X i f | B ep cr seq lam p.. | b ep cr seq lam p.. | R | RESET ep id w .. | M i | G f
+//   ; r                                    restart that re-uses the application's vecfc index object (R creates a fresh one)
+//   ; L mode n [flags]                     (header group) ApplyEvent listener policy: 0 every block, 1 from block n on, 2 odd blocks,
+//                                          3 no BeginBlock callback at all; flags 1: nil EndBlock on non-sealing blocks, 2: one-byte vector caches
 //   ; W                                    Store.GetValidators (ids and weights in canonical order)
 //   ; Q i j                                ForklessCause(event i, event j) asked of the instance's index
 //   ; Y n ep cr seq lam frame p..          Process of an inline "ghost" event (id tail n) that is defined nowhere else
@@ -47,6 +50,8 @@ type Scenario struct {
 	Epoch0 uint32
 	Vals   []VW
 	Policy []SealRule
+	ListenMode, ListenN int // "L mode n": which blocks get an ApplyEvent listener (see inst.go Listens)
+	Flags               int // "L mode n flags": 1 = nil EndBlock on non-sealing blocks, 2 = one-byte vector caches
 	Groups [][]string // everything after the header, in order (E definitions and ops, "ALT")
 }
 
@@ -87,6 +92,13 @@ func Parse(in []string) *Scenario {
 		switch g[0] {
 		case "V":
 			sc.Vals = parseVW(g[1:])
+		case "L":
+			if len(g) >= 3 {
+				sc.ListenMode, sc.ListenN = int(pu(g[1])), int(pu(g[2]))
+				if len(g) >= 4 {
+					sc.Flags = int(pu(g[3]))
+				}
+			}
 		case "S":
 			if len(g) >= 3 {
 				sc.Policy = append(sc.Policy, SealRule{Epoch: pu(g[1]), Block: int(pu(g[2])), Vals: parseVW(g[3:])})
@@ -167,7 +179,11 @@ func (r *runner) blocksTok(bl []BlockObs) []string {
 			}
 			seal = "S" + strings.Join(vs, ",")
 		}
-		out = append(out, "A"+r.evname(b.Atropos), "c"+strings.Join(ch, ","), "d"+strings.Join(dl, ","), seal)
+		dtok := "d" + strings.Join(dl, ",")
+		if !b.Listened {
+			dtok = "dX" // no ApplyEvent listener for this block: nothing observed
+		}
+		out = append(out, "A"+r.evname(b.Atropos), "c"+strings.Join(ch, ","), dtok, seal)
 	}
 	return out
 }
@@ -184,7 +200,7 @@ func AltGroups(mix string, groups [][]string) [][]string {
 		}
 	case "C08":
 		for _, g := range groups {
-			if g[0] != "R" {
+			if g[0] != "R" && g[0] != "r" {
 				out = append(out, g)
 			}
 		}
@@ -228,7 +244,7 @@ func Exec(sc *Scenario, stat func(string)) []string {
 
 func execOne(sc *Scenario, groups [][]string, stat func(string)) []string {
 	r := &runner{sc: sc, defs: map[int]*EvDef{}, ids: map[int]hash.Event{}, num: map[hash.Event]int{}}
-	inst := NewInst(sc.Cfg, sc.Epoch0, sc.Vals, sc.Policy)
+	inst := NewInstOpts(sc.Cfg, sc.Epoch0, sc.Vals, sc.Policy, sc.ListenMode, sc.ListenN, sc.Flags)
 	var out []string
 	first := true
 	emit := func(toks ...string) {
@@ -368,8 +384,15 @@ func execOne(sc *Scenario, groups [][]string, stat func(string)) []string {
 				stat("op_build_" + res[:1])
 			}
 			emit(res)
-		case "R":
-			res, bl := inst.Restart()
+		case "R", "r":
+			var res string
+			var bl []BlockObs
+			if g[0] == "r" { // in-process restart: the application keeps its DagIndexer object
+				res, bl = inst.RestartKeepIndex()
+				stat("op_r_keep_index")
+			} else {
+				res, bl = inst.Restart()
+			}
 			stat("op_R")
 			if lastKind == "X" || lastKind == "Y" || lastKind == "b" {
 				stat("R_after_injected")
